@@ -124,6 +124,16 @@ def _work(task):
             by = "z3+cvc5"
     if final == "unknown":
         final = "undecided"
+        # the solvers gave up: bounded counterexample search on a quantifier-free instance of the VC (a candidate only)
+        try:
+            from . import refute
+
+            st3, m3 = refute.search_text(text, N=4, timeout_ms=z3_ms)
+        except Exception as e:
+            st3, m3 = "unknown", None
+        res["bounded"] = st3
+        if st3 == "candidate":
+            res["candidate_model"] = m3
     res["status"] = final
     res["by"] = by
     res["model"] = model
